@@ -19,7 +19,87 @@ func init() {
 func runC06(c *Ctx) {
 	c.checkMatcherShapes()
 	c.checkBrokerRelayGate()
+	c.checkBrokerPatternWiring()
 	c.checkProxyRelayGate()
+}
+
+// checkBrokerPatternWiring: the two pattern fields of the broker context are
+// written only from the command-line flags that carry their names
+// (allowedRelayPattern <- -allowed-relay-pattern, presumedPatternForLegacyClient
+// <- -default-relay-pattern), following the stored value through the parameters
+// of the installing function to the flag variable.
+func (c *Ctx) checkBrokerPatternWiring() {
+	p := c.P
+	rule := "O-2b pattern flags reach the fields they configure"
+	want := map[string]string{"allowedRelayPattern": "allowed-relay-pattern", "presumedPatternForLegacyClient": "default-relay-pattern"}
+	broker := p.FnsIn("broker")
+	// flag variable -> flag name
+	flagName := map[ssa.Value]string{}
+	for _, fn := range broker {
+		for _, ci := range callsTo(fn, "flag.StringVar") {
+			if nm, ok := constString(ci.Common().Args[1]); ok {
+				flagName[ci.Common().Args[0]] = nm
+			}
+		}
+	}
+	var origin func(v ssa.Value, depth int) []string
+	origin = func(v ssa.Value, depth int) []string {
+		v = strip(v)
+		if depth > 4 {
+			return []string{"?"}
+		}
+		if par, ok := v.(*ssa.Parameter); ok {
+			fn := par.Parent()
+			idx := -1
+			for i, q := range fn.Params {
+				if q == par {
+					idx = i
+				}
+			}
+			var out []string
+			for _, site := range p.realCallers(fn) {
+				args := callArgs(site)
+				if idx < len(args) {
+					out = append(out, origin(args[idx], depth+1)...)
+				}
+			}
+			if len(out) == 0 {
+				return []string{"?"}
+			}
+			return out
+		}
+		if addr, ok := loadAddr(v); ok {
+			if nm, okf := flagName[addr]; okf {
+				return []string{nm}
+			}
+		}
+		if s, ok := constString(v); ok {
+			return []string{"const:" + s}
+		}
+		return []string{"?"}
+	}
+	for field, flagWant := range want {
+		f := p.Field("broker", "BrokerContext", field)
+		if f == nil {
+			c.undecided(rule, "BrokerContext."+field, "-", "field does not resolve")
+			continue
+		}
+		n := 0
+		for _, st := range storesToField(broker, f) {
+			n++
+			srcs := origin(st.Val, 0)
+			good := len(srcs) > 0
+			for _, s := range srcs {
+				if s != flagWant {
+					good = false
+				}
+			}
+			c.check(good, rule, "BrokerContext."+field+" is configured from -"+flagWant, p.instrPos(st), "", fmt.Sprintf("the field is written from %v, expected the -%s flag: the allowed pattern and the pattern presumed for legacy proxies are exchanged or mis-wired", srcs, flagWant))
+		}
+		if n == 0 {
+			c.undecided(rule, "BrokerContext."+field+" stores", "-", "none found")
+		}
+	}
 }
 
 func (c *Ctx) checkMatcherShapes() {
@@ -409,8 +489,8 @@ func (c *Ctx) checkProxyRelayGate() {
 		c.undecided(rule, "runSession parses the relay URL and creates the peer connection", p.Pos(run.Pos()), "url.Parse(relayURL) or makePeerConnectionFromOffer call not found")
 		return
 	}
-	empty := eqEdges(run, true, isRelay, func(v ssa.Value) bool { s, ok := constString(v); return ok && s == "" })
-	member := boolEdges(run, true, func(v ssa.Value) bool {
+	empty := sEq(true, isRelay, func(v ssa.Value) bool { s, ok := constString(v); return ok && s == "" })
+	member := sBool(true, func(v ssa.Value) bool {
 		cc, _, ok := callResult(v)
 		if !ok || calleeName(cc) != "(*common/namematcher.NameMatcher).IsMember" {
 			return false
@@ -432,23 +512,18 @@ func (c *Ctx) checkProxyRelayGate() {
 		})
 		return okM
 	})
-	allowNonTLS := boolEdges(run, true, func(v ssa.Value) bool { _, f, ok := fieldLoad(v); return ok && f.Name() == "AllowNonTLSRelay" })
-	wss := condEdges(run, true, func(a Atom) bool {
-		if a.Op != token.EQL {
-			return false
-		}
-		s, ok := constString(a.Y)
-		if !ok || s != "wss" {
-			return false
-		}
-		base, f, okf := fieldLoad(a.X)
+	allowNonTLS := sBool(true, func(v ssa.Value) bool { _, f, ok := fieldLoad(v); return ok && f.Name() == "AllowNonTLSRelay" })
+	wss := sEq(true, func(v ssa.Value) bool {
+		base, f, okf := fieldLoad(v)
 		return okf && f.Name() == "Scheme" && isResultOfCall(base, parse, 0)
-	})
-	pathA := reachableWithout(run, mkCall, append(append([]Edge{}, empty...), member...))
-	c.check(len(member) > 0 && pathA == nil, rule, "a session is set up only if relayURL == \"\" or the parsed host is a member of the proxy's pattern", p.instrPos(mkCall), "",
+	}, func(v ssa.Value) bool { s, ok := constString(v); return ok && s == "wss" })
+	// the conditions may be tested inline or through a boolean helper of runSession
+	nMember, nWss, nAllow := specSeen(run, member, 2), specSeen(run, wss, 2), specSeen(run, allowNonTLS, 2)
+	pathA := reachableWithout(run, mkCall, predEdgesS(run, []condSpec{empty, member}, 2))
+	c.check(nMember > 0 && pathA == nil, rule, "a session is set up only if relayURL == \"\" or the parsed host is a member of the proxy's pattern", p.instrPos(mkCall), "",
 		"the peer connection (and so the relay dial) is reachable for a broker-supplied URL whose host fails the proxy's own pattern", p.pathString(pathA)...)
-	pathB := reachableWithout(run, mkCall, append(append(append([]Edge{}, empty...), allowNonTLS...), wss...))
-	c.check(len(wss) > 0 && len(allowNonTLS) > 0 && pathB == nil, rule, "a session is set up only if relayURL == \"\" or non-TLS relays are allowed or the scheme is wss", p.instrPos(mkCall), "",
+	pathB := reachableWithout(run, mkCall, predEdgesS(run, []condSpec{empty, allowNonTLS, wss}, 2))
+	c.check(nWss > 0 && nAllow > 0 && pathB == nil, rule, "a session is set up only if relayURL == \"\" or non-TLS relays are allowed or the scheme is wss", p.instrPos(mkCall), "",
 		"the peer connection is reachable for a non-wss relay URL although non-TLS relays were not allowed", p.pathString(pathB)...)
 	pathC := reachableWithout(run, mkCall, errNilEdges(run, parse, 1))
 	c.check(pathC == nil, rule, "a session is set up only if the relay URL parsed", p.instrPos(parse), "", "the peer connection is reachable although url.Parse(relayURL) failed", p.pathString(pathC)...)
